@@ -383,6 +383,26 @@ def boundary_cells(rng, tier):
                              lkind=("simple", "general")[int(rng.integers(2))], tkind=TEX[rng.integers(len(TEX))])
             sc["regime_switch"] = [r1, r2, 0.0 if r1 == r2 else float(rng.uniform(0.05, 0.3))]
             cells.append((sc, phi, "boundary"))
+    # get_regime moves a mineral whose STORED regime has no boundary migration (matrix_diffusion, min / max viscosity) into
+    # dislocation creep: from the first evaluation on, part-way through an update, and at the start of the second update (the
+    # regime the previous call left on the object); interior fractions -- anything resolved once per call from the stored
+    # regime (seeded change C08d: fraction looked up only when self.regime is a migration regime) shows here and nowhere else
+    for j, (built, r1, r2, mode) in enumerate(((1, 4, 4, "override"), (0, 6, 6, "override"), (7, 7, 4, "inside"),
+                                               (1, 1, 6, "inside"), (4, 0, 4, "second_update"), (6, 1, 6, "second_update"))):
+        for ph in ((0, 1) if tier == "thorough" else ((j + int(rng.integers(2))) % 2,)):
+            pair = (0, int(rng.integers(0, 5))) if ph == 0 else (1, 5)
+            # responsive textures: many comparable grains, strong mobility, little sliding, enough strain, a clear fraction
+            sc = MT.scenario(rng, regime=built, pair=pair, n=int(rng.integers(6, 13)), nupd=2,
+                             lkind=("simple", "general", "pure")[int(rng.integers(3))], tkind=("random", "clustered")[int(rng.integers(2))],
+                             strain=float(rng.uniform(0.5, 0.8)))
+            sc["params"]["gbm_mobility"] = float(rng.uniform(100, 200))
+            sc["params"]["gbs_threshold"] = float(rng.uniform(0.0, 0.2))
+            sc["regime_switch"] = [r1, r2, 0.0]
+            if mode == "inside":
+                sc["regime_switch_update"] = float(rng.uniform(0.1, 0.4))     # c01.run_history: switch time = this x dt
+            if mode == "second_update":
+                sc["regime_switch_update"] = 1
+            cells.append((sc, float((0.1, 0.3, 0.5)[int(rng.integers(3))]), "grid"))
     return cells
 
 
